@@ -483,7 +483,7 @@ def verilog_friendly(ad):
 def build_api(ad, with_index=False):
     """Build the design through spydrnet's public API. with_index also returns {handle tuple: object}."""
     import spydrnet as sdn
-    DIR = {'IN': sdn.IN, 'OUT': sdn.OUT, 'INOUT': sdn.INOUT}
+    DIR = {'IN': sdn.IN, 'OUT': sdn.OUT, 'INOUT': sdn.INOUT, 'UNDEFINED': sdn.UNDEFINED}
     ix = {}
 
     def nm(e):
